@@ -19,7 +19,7 @@ from . import c01
 CALS = ["ymd", "ywd", "yd", "ymcw", "ldn", "jdn", "mdn"]
 IARGS = {"ymd": [], "ywd": [], "yd": [], "ymcw": [], "ldn": ["-i", "ldn"],
          "jdn": ["-i", "jdn"], "mdn": ["-i", "mdn"]}
-SPECS = cal.DATE_SPECS
+SPECS = cal.DATE_SPECS + ["%db"]
 
 
 def _dconv(bindir, args, lines, sh):
@@ -146,6 +146,9 @@ def strf_task(task):
             continue
         for i, (sp, f) in enumerate(zip(specs, fields)):
             exp = d.spec(sp)
+            if exp is None:
+                sh.skip("specifier-undefined-for-day")
+                continue
             if f in exp:
                 sh.ok("strf", (holder, sp, pred(i) if len(specs) <= 2 else "*", d.cls()))
             else:
@@ -197,6 +200,8 @@ def dseq_task(task):
             continue
         for i, (sp, f) in enumerate(zip(specs, fields)):
             exp = d.spec(sp)
+            if exp is None:
+                continue
             if f in exp:
                 sh.ok("strf", ("dseq:daisy", sp, "*", d.cls()))
             else:
